@@ -3,7 +3,7 @@
 //! message per write), or the bytes placed in guest memory (virtio-fs: real `GuestMemoryMmap` with
 //! dirty bitmap and a descriptor chain built through virtio-queue), canaries, dirty pages.
 use fuse_backend_rs::api::filesystem::FileSystem;
-use fuse_backend_rs::api::server::Server;
+use fuse_backend_rs::api::server::{MetricsHook, Server};
 use fuse_backend_rs::transport::{FsCacheReqHandler, FuseBuf, FuseDevWriter, Reader, VirtioFsWriter, Writer};
 use serde_json::{json, Value};
 use std::os::unix::io::RawFd;
@@ -93,6 +93,18 @@ pub fn run_fusedev<F: FileSystem + Sync>(
     vu: Option<&mut dyn FsCacheReqHandler>,
     pair: &SeqPair,
 ) -> Outcome {
+    run_fusedev_hook(server, req, cap, vu, pair, None)
+}
+
+/// Same, with a `MetricsHook` (used to observe the negotiated INIT parameters).
+pub fn run_fusedev_hook<F: FileSystem + Sync>(
+    server: &Server<F>,
+    req: &[u8],
+    cap: usize,
+    vu: Option<&mut dyn FsCacheReqHandler>,
+    pair: &SeqPair,
+    hook: Option<&dyn MetricsHook>,
+) -> Outcome {
     const PAD: usize = 256;
     let mut rbuf = req.to_vec();
     let mut wall = vec![CANARY; cap + 2 * PAD];
@@ -111,7 +123,7 @@ pub fn run_fusedev<F: FileSystem + Sync>(
                 Ok(w) => w,
                 Err(e) => return format!("err:writer:{}", err_variant(&e)),
             };
-            match server.handle_message(reader, Writer::FuseDev(writer), vu, None) {
+            match server.handle_message(reader, Writer::FuseDev(writer), vu, hook) {
                 Ok(n) => format!("ok:{n}"),
                 Err(e) => format!("err:{}", err_variant(&e)),
             }
